@@ -49,6 +49,9 @@ where
         kani::assume(false);
     }
     assert!(signal >= 0 && (signal as usize) < MAX_SIGNUM, "C14.ITER-NO-REGISTER: the registry is never asked to register a number the iterator refuses");
+    if !TABLE.is_null() {
+        assert!((*TABLE).try_lock().is_err(), "C12.ATOMIC-ADD: the id table stays locked from the 'already watched?' lookup until the new id is recorded (two handles adding the same signal cannot both register)");
+    }
     let n = REG_CALLS;
     REG_CALLS += 1;
     REG_SIGNAL = signal;
@@ -74,6 +77,7 @@ where
     Ok(std::mem::transmute_copy::<RawSigId, SigId>(&RawSigId { signal, action: id }))
 }
 static mut EXPECTED_PANIC: bool = false;
+static mut TABLE: *const Mutex<Vec<Option<SigId>>> = std::ptr::null();
 static mut UNREG_CALLS: usize = 0;
 static mut UNREG_IDS: [u128; 4] = [0; 4];
 pub fn unregister_stub(id: SigId) -> bool {
@@ -97,11 +101,54 @@ static mut SLOT_STORES: usize = 0;
 static mut LAST_SLOT_STORED: usize = usize::MAX;
 static mut SLOT_LOADS_DURING_FLUSH: usize = 0;
 static mut IN_FLUSH: bool = false;
+// per-slot access accounting (C10.CLEAR-ATOMIC) and drain/scan ordering (C09.NO-DRAIN-AFTER-SCAN)
+static mut SLOT_PLAIN_LOADS: usize = 0;
+static mut SLOT_PLAIN_STORES: usize = 0;
+static mut SLOT_RMWS: usize = 0;
+static mut DRAINS: usize = 0;
+static mut SCANNED_SINCE_DRAIN: usize = 0;
+static mut FIRST_SLOT_SINCE_DRAIN: usize = usize::MAX;
+fn on_recv_event() {
+    unsafe {
+        DRAINS += 1;
+        SCANNED_SINCE_DRAIN = 0;
+        FIRST_SLOT_SINCE_DRAIN = usize::MAX;
+    }
+}
+unsafe fn slot_index(p: usize) -> Option<usize> {
+    if SLOT_BASE != 0 && p >= SLOT_BASE && p < SLOT_BASE + MAX_SIGNUM {
+        Some(p - SLOT_BASE)
+    } else {
+        None
+    }
+}
+unsafe fn slot_examined(i: usize) {
+    if SCANNED_SINCE_DRAIN == 0 {
+        FIRST_SLOT_SINCE_DRAIN = i;
+    }
+    SCANNED_SINCE_DRAIN += 1;
+}
+pub fn bool_swap(a: &AtomicBool, v: bool, _o: Ordering) -> bool {
+    unsafe {
+        let cell = a as *const AtomicBool as *mut bool;
+        if let Some(i) = slot_index(a as *const AtomicBool as usize) {
+            SLOT_RMWS += 1;
+            slot_examined(i);
+        }
+        let old = *cell;
+        *cell = v;
+        old
+    }
+}
 
 pub fn bool_load(a: &AtomicBool, _o: Ordering) -> bool {
     unsafe {
         let p = a as *const AtomicBool as usize;
         let cell = a as *const AtomicBool as *mut bool;
+        if let Some(i) = slot_index(p) {
+            SLOT_PLAIN_LOADS += 1;
+            slot_examined(i);
+        }
         if p == CLOSED_ADDR {
             // rely: close() is sticky - once true always true; before that it may become true at any time
             if CLOSE_MAY_HAPPEN && !*cell && kani::any() {
@@ -123,6 +170,7 @@ pub fn bool_store(a: &AtomicBool, v: bool, o: Ordering) {
             assert!(matches!(o, Ordering::SeqCst), "C11.STICKY: the closed flag is stored SeqCst");
             lm::ev(lm::EV_USER, 1, 0, 0, 0, 0); // event: closed := true
         } else if SLOT_BASE != 0 && p >= SLOT_BASE && p < SLOT_BASE + MAX_SIGNUM {
+            SLOT_PLAIN_STORES += 1;
             SLOT_STORES += 1;
             LAST_SLOT_STORED = p - SLOT_BASE;
             assert!(v, "C10.SET-ONLY: a delivery only ever SETS its slot (clearing is the consumer's compare-exchange)");
@@ -137,6 +185,10 @@ pub fn bool_cas(a: &AtomicBool, cur: bool, new: bool, _s: Ordering, _f: Ordering
         let cell = a as *const AtomicBool as *mut bool;
         if SLOT_BASE != 0 && p >= SLOT_BASE && p < SLOT_BASE + MAX_SIGNUM && IN_FLUSH {
             SLOT_LOADS_DURING_FLUSH += 1;
+        }
+        if let Some(i) = slot_index(p) {
+            SLOT_RMWS += 1;
+            slot_examined(i);
         }
         if *cell == cur {
             *cell = new;
@@ -222,6 +274,26 @@ fn c10_signal_only() {
     assert!(!slot.load(Ordering::SeqCst), "C10.CLEAR: a reported delivery is consumed (the mark is cleared in the same atomic step)");
     let r2 = sealed_load(&ex, &slot, sig);
     assert!(r2.is_none(), "C10.CLEAR: one mark yields at most one report");
+}
+// the consumer's "check and clear" is ONE atomic read-modify-write on the slot (two scans racing on
+// one mark can then yield it only once)
+#[kani::proof]
+#[kani::stub(core::sync::atomic::Atomic::<bool>::load, bool_load)]
+#[kani::stub(core::sync::atomic::Atomic::<bool>::store, bool_store)]
+#[kani::stub(core::sync::atomic::Atomic::<bool>::compare_exchange, bool_cas)]
+#[kani::stub(core::sync::atomic::Atomic::<bool>::compare_exchange_weak, bool_cas)]
+#[kani::stub(core::sync::atomic::Atomic::<bool>::swap, bool_swap)]
+fn c10_signal_only_atomic() {
+    lm::link();
+    let slots = [AtomicBool::new(kani::any()), AtomicBool::new(false)];
+    unsafe {
+        SLOT_BASE = &slots[0] as *const AtomicBool as usize;
+    }
+    let r = sealed_load(&SignalOnly, &slots[0], 7);
+    unsafe {
+        assert!(SLOT_RMWS == 1 && SLOT_PLAIN_LOADS == 0 && SLOT_PLAIN_STORES == 0, "C10.CLEAR-ATOMIC: load examines and clears the mark in exactly one atomic read-modify-write (never a separate load and store), so one delivery cannot be reported twice by racing scans");
+    }
+    kani::cover!(r.is_some(), "C10.cover: mark consumed");
 }
 fn sealed_load<E: Exfiltrator>(e: &E, s: &E::Storage, sig: c_int) -> Option<E::Output> {
     e.load(s, sig)
@@ -405,17 +477,42 @@ fn has_signals_sched(_r: &mut Fd) -> Result<bool, Error> {
 // copy in which the driver rewrites `const MAX_SIGNUM: usize = 128;` to 4: the scan is the same
 // code with a shorter table; the table-size-dependent obligations are proved on the real 128 in
 // unit `backend`.)
+// close() has RETURNED before the call starts: nothing may block, i.e. the (possibly blocking)
+// readiness callback must not be consulted at all - for poll_pending (used by wait()) and poll_signal
+#[kani::proof]
+#[kani::unwind(130)]
+fn c11_closed_before_call() {
+    lm::link();
+    let mut sd = new_delivery(&[]);
+    sd.handle().close();
+    unsafe {
+        CB_CALLS = 0;
+        CB_TRUE_BUDGET = 0;
+    }
+    let r = sd.poll_pending(&mut has_signals_cb);
+    unsafe {
+        assert!(CB_CALLS == 0, "C11.NO-BLOCK-AFTER-CLOSE: once close() has returned, wait/poll_pending never consults the (blocking) readiness callback again");
+    }
+    assert!(matches!(r, Ok(None)), "C11.NO-BLOCK-AFTER-CLOSE: it returns at once with no batch (the caller then scans what is pending)");
+    std::mem::forget(r);
+    std::mem::forget(sd);
+}
+
 macro_rules! poll_signal_harness {
     ($name:ident, $marked:expr, $sched:expr) => {
         #[kani::proof]
         #[kani::unwind(6)]
         #[kani::stub(core::sync::atomic::Atomic::<bool>::load, bool_load)]
+        #[kani::stub(core::sync::atomic::Atomic::<bool>::compare_exchange, bool_cas)]
+        #[kani::stub(core::sync::atomic::Atomic::<bool>::swap, bool_swap)]
         fn $name() {
             lm::link();
             let sd = new_delivery(&[]);
             unsafe {
                 track(&sd);
+                SLOT_BASE = &sd.pending.slots[0] as *const AtomicBool as usize;
                 lm::RECV_BUDGET = 0;
+                lm::ON_RECV = Some(on_recv_event);
             }
             let mut it: SignalIterator<SignalDelivery<Fd, SignalOnly>, SignalOnly> = SignalIterator::new(sd);
             if $marked {
@@ -427,8 +524,16 @@ macro_rules! poll_signal_harness {
                 SCHED = $sched;
                 CB_CALLS = 0;
             }
+            unsafe {
+                DRAINS = 0;
+                SCANNED_SINCE_DRAIN = 0;
+                FIRST_SLOT_SINCE_DRAIN = usize::MAX;
+            }
             let r = it.poll_signal(&mut has_signals_sched);
             unsafe {
+                if matches!(r, PollResult::Signal(_) | PollResult::Pending) && DRAINS > 0 {
+                    assert!(SCANNED_SINCE_DRAIN > 0 && FIRST_SLOT_SINCE_DRAIN == 0, "C09.NO-DRAIN-AFTER-SCAN: whenever the pipe was drained during the call, a scan of the slots from the first one follows before a signal or 'pending' is reported (a wake-up byte is never discarded after the slot it announces was already passed)");
+                }
                 match r {
                     PollResult::Pending => {
                         assert!(CB_CALLS >= 1 && CB_LAST == 1, "C11.PENDING-ONLY-IF-ARMED: 'pending' is reported only if, during this very call, the readiness callback was consulted and its last answer was 'nothing available' (so the caller has an armed wake-up)");
@@ -468,6 +573,7 @@ fn rejected_by_panic(sig: c_int) -> bool {
 
 // Two consecutive add_signal calls for an accepted number, registry answering Ok/Err freely.
 unsafe fn two_adds(h: &Handle, sig: c_int) {
+    TABLE = &h.delivery_state.registered_signal_ids as *const Mutex<Vec<Option<SigId>>>;
     REG_FAIL[0] = kani::any();
     REG_FAIL[1] = kani::any();
     REG_CALLS = 0;
@@ -485,6 +591,7 @@ unsafe fn two_adds(h: &Handle, sig: c_int) {
     }
     std::mem::forget(r1);
     std::mem::forget(r2);
+    assert!((*TABLE).try_lock().is_ok(), "C12.TABLE-RELEASED: the table lock is released when add_signal returns");
 }
 
 // (a) the real 128-entry table and the info-carrying exfiltrator, one representative signal
